@@ -46,7 +46,10 @@ struct Case {
 }
 
 fn gen_case(r: &mut Rng, port: u16) -> (Case, String) {
-    let pq = match r.below(18) {
+    let pq = match r.below(21) {
+        18 => "/announce#frag".to_string(),
+        19 => "/announce?k=v#top".to_string(),
+        20 => "/a/announce?#".to_string(),
         15 => "/Announce/aBcD".to_string(),
         16 => "/announce?PassKey=Zm9vQmFy&UID=7".to_string(),
         17 => "/TR/Announce.PHP?Key=MiXeD".to_string(),
@@ -131,7 +134,8 @@ pub fn run(ctx: &Ctx) -> Report {
             let mut parts = line.split(' ');
             let (method, target) = (parts.next().unwrap_or(""), parts.next().unwrap_or(""));
             let (path, query) = target.split_once('?').unwrap_or((target, ""));
-            let (want_path, want_query) = case.path_and_query.split_once('?').unwrap_or((&case.path_and_query, ""));
+            let no_fragment = case.path_and_query.split('#').next().unwrap_or("");
+            let (want_path, want_query) = no_fragment.split_once('?').unwrap_or((no_fragment, ""));
             let want_path = if want_path.is_empty() { "/" } else { want_path };
             let host = text.lines().find_map(|l| { let (k, v) = l.split_once(':')?; if k.eq_ignore_ascii_case("host") { Some(v.trim().to_string()) } else { None } }).unwrap_or_default();
             let pairs = parse_query(query);
